@@ -334,7 +334,7 @@ impl Scenario for C17 {
         }
     }
     fn rule(&self) -> String {
-        "Each run: twin generators of one state-hiding type (XorShiftRng, Hc128Rng, IsaacRng, Isaac64Rng, JitterRng; or the cores Hc128Core, IsaacCore, Isaac64Core) with DIFFERENT secrets (seed through any route; for JitterRng a different clock script) and the SAME public history (pre-advance, next_u32/next_u64/fill_bytes ops, so the same read position). After construction and after every operation {:?} and {:#?} of both must be byte-equal, and no decimal or hexadecimal token of the text may equal a state word (bincode image where available), a buffered/next output word (a clone's next two blocks) or a just-returned value >= 100000. distinct_nontrivial = distinct (type, buffer index, op kind) signatures at which the texts were compared. Histories also contain non-output operations applied to both twins (timer_stats, set_rounds incl. the contained set_rounds(0), test_timer, clone, snapshot/restore, ==). Texts are produced under every formatter flag ({:x?}, {:#X?}, {:+?}, width/precision/padding), and in one run out of three additionally while the thread unwinds from a harness-raised panic or on another thread. Extra passes: a build with --cfg fuzzing; a pass in which every ALL_CAPS token found in the compiled crates is set as an environment variable. Core runs: before each generate() both owners' results buffers are primed with the same public content (what the previous call left, the block the first or the second twin is about to produce - taken from a clone -, zeros, all ones).".into()
+        "Each run: twin generators of one state-hiding type (XorShiftRng, Hc128Rng, IsaacRng, Isaac64Rng, JitterRng; or the cores Hc128Core, IsaacCore, Isaac64Core) with DIFFERENT secrets (seed through any route; for JitterRng a different clock script) and the SAME public history (pre-advance, next_u32/next_u64/fill_bytes ops, so the same read position). After construction and after every operation {:?} and {:#?} of both must be byte-equal, and no decimal or hexadecimal token of the text may equal a state word (bincode image where available), a buffered/next output word (a clone's next two blocks) or a just-returned value >= 100000. distinct_nontrivial = distinct (type, buffer index, op kind) signatures at which the texts were compared. Histories also contain non-output operations applied to both twins (timer_stats, set_rounds incl. the contained set_rounds(0), test_timer, clone, snapshot/restore, ==). Texts are produced under every formatter flag ({:x?}, {:#X?}, {:+?}, width/precision/padding), and in one run out of three additionally while the thread unwinds from a harness-raised panic or on another thread. Extra passes: a build with --cfg fuzzing; a pass in which every ALL_CAPS token found in the compiled crates is set as an environment variable. Core runs: before each generate() both owners' results buffers are primed with the same public content (what the previous call left, the block the first or the second twin is about to produce - taken from a clone -, zeros, all ones). (core_block_marathon) two Hc128Core with different keys produce 2^23 blocks each, the {:?} text is compared after every generate().".into()
     }
     fn assumptions(&self) -> Vec<String> {
         vec!["words below 100000 are not searched for (chance hits on index / result_len)".into()]
